@@ -40,7 +40,15 @@ def main(argv=None):
     if args.replay:
         return mod.replay(args.replay)
 
-    ctx = {"prop": prop, "tier": args.tier, "seed": seed, "t0": t0}
+    # source fingerprint: a changed function of the package enlarges the input budget of this run
+    from harness import fingerprint
+    try:
+        changed_fns = fingerprint.changed()
+    except Exception as e:  # noqa: BLE001
+        changed_fns = [f"<fingerprint failed: {type(e).__name__}>"]
+    if changed_fns and args.tier == "quick" and not os.environ.get("VERIF_BOOST"):
+        os.environ["VERIF_BOOST"] = "4"
+    ctx = {"prop": prop, "tier": args.tier, "seed": seed, "t0": t0, "changed_functions": changed_fns}
     lean = {"built": False, "theorems": {}, "stmt_hash": None, "failure": None, "leanchecker": None}
     props_file = getattr(mod, "PROPS_FILE", f"Scfg/Props/{prop}.lean")
     props_module = props_file[:-5].replace("/", ".")
@@ -146,6 +154,7 @@ def main(argv=None):
     cov["leanchecker"] = lean["leanchecker"]
     cov["lean_failure"] = lean["failure"]["what"] if lean["failure"] else None
     cov["known_findings_seen"] = sorted(seen_k)
+    cov["source_fingerprint"] = {"changed_functions_vs_baseline": changed_fns[:40], "input_budget_factor": int(os.environ.get("VERIF_BOOST", "1"))}
     common.write_evidence(prop, args.tier, seed, res.get("level", "other"), cov, time.time() - t0,
                           len(out_viol), res.get("assumptions", []))
     if res.get("could_not_run") and not out_viol:
